@@ -13,6 +13,7 @@ from hypothesis import strategies as st
 
 from vt.gen.basic import fl, logu, simplex
 from vt.oracle.idlang import MODULES
+from vt.oracle.idlang import is_plate as idlang_is_plate
 
 REAL, POS, UNIT, SIMPLEX = "real", "pos", "unit", "simplex"
 RANK = {SIMPLEX: 0, UNIT: 1, POS: 2, REAL: 3}
@@ -118,21 +119,42 @@ class Gen:
         return [self.d(s) for _ in range(n)]
 
     # ---- vectors
-    def vec(self, dom, n, path, depth=0, p_ref=0.7, strict=True):
+    MAG = {REAL: 3.0, POS: 20.0, UNIT: 1.0, SIMPLEX: 1.0}
+    EXP_MAX = 25.0  # nothing larger is ever exponentiated (exp(exp(20)) overflows)
+
+    def node_of(self, v):
+        id_ = v if isinstance(v, str) else v["id"]
+        for x in self.nodes:
+            if x.id == id_:
+                return x
+        return None
+
+    def mag_of(self, v):
+        vs = v if isinstance(v, list) else [v]
+        out = 1.0
+        for e in vs:
+            if idlang_is_plate(e):
+                out = max(out, 20.0)
+            else:
+                out = max(out, getattr(self.node_of(e), "mag", 20.0))
+        return out
+
+    def vec(self, dom, n, path, depth=0, p_ref=0.7, strict=True, small=False):
+        """small: the value will be exponentiated, so it must be bounded by EXP_MAX"""
         return self.ref_or(
             path,
-            lambda x: x.kind == "vec" and x.n == n and fits(x.dom, dom),
+            lambda x: x.kind == "vec" and x.n == n and fits(x.dom, dom) and not (small and x.mag > self.EXP_MAX),
             p_ref,
-            lambda: self.new_vec(dom, n, path, depth),
+            lambda: self.new_vec(dom, n, path, depth, small),
             strict,
         )
 
-    def new_vec(self, dom, n, path, depth):
+    def new_vec(self, dom, n, path, depth, small=False):
         opts = ["leaf"] * 5
         if depth < 2:
             if dom != SIMPLEX:
                 opts += ["view", "cat", "like"]
-            if dom in (POS, REAL):
+            if dom in (POS, REAL) and not small:
                 opts += ["exp"]
             if dom in (UNIT, POS, REAL):
                 opts += ["sigmoid"]
@@ -144,7 +166,7 @@ class Gen:
             o = {"id": id_, "type": self.typename("Parameter"), "tensor": self.values(nd, n)}
             if self.chance(0.1):
                 o["dtype"] = "torch.float64"
-            return self.done(o, "vec", path, dom=nd, n=n, updatable=True)
+            return self.done(o, "vec", path, dom=nd, n=n, updatable=True, mag=self.MAG[nd])
         if k == "like":
             form = self.d(st.sampled_from({REAL: ["ones_like", "zeros_like", "full_like"], POS: ["ones_like", "full_like"], UNIT: ["full_like"]}[dom]))
             o = {"id": id_, "type": self.typename("Parameter")}
@@ -156,7 +178,7 @@ class Gen:
             elif form == "ones_like":
                 nd = POS
             self.features.add("like")
-            return self.done(o, "vec", path, dom=nd, n=n, updatable=False)
+            return self.done(o, "vec", path, dom=nd, n=n, updatable=False, mag=self.MAG[nd])
         if k == "view":
             pdoms = [x for x in DOMS if fits(demote(x), dom)]
             pd = self.d(st.sampled_from(pdoms))
@@ -176,29 +198,30 @@ class Gen:
             o = {"id": id_, "type": self.typename("ViewParameter")}
             if self.chance(0.5):
                 o["indices"] = self.d(st.sampled_from(forms))
-                o["parameter"] = self.vec(pd, m, path + ["parameter"], depth + 1)
+                o["parameter"] = self.vec(pd, m, path + ["parameter"], depth + 1, small=small)
             else:
-                o["parameter"] = self.vec(pd, m, path + ["parameter"], depth + 1)
+                o["parameter"] = self.vec(pd, m, path + ["parameter"], depth + 1, small=small)
                 o["indices"] = self.d(st.sampled_from(forms))
             self.features.add("view")
-            return self.done(o, "vec", path, dom=demote(pd), n=n, updatable=False)
+            return self.done(o, "vec", path, dom=demote(pd), n=n, updatable=False, mag=self.mag_of(o["parameter"]))
         if k == "cat":
             pdoms = [x for x in DOMS if fits(demote(x), dom)]
-            parts, total = self.parts(n, path + ["parameters"], lambda m, p: self.vec(self.pick_dom(pdoms, m), m, p, depth + 1), allow_plate=True, pdoms=pdoms)
+            parts, total = self.parts(n, path + ["parameters"], lambda m, p: self.vec(self.pick_dom(pdoms, m), m, p, depth + 1, small=small), allow_plate=True, pdoms=pdoms)
             o = {"id": id_, "type": self.typename("CatParameter"), "parameters": parts}
             if self.chance(0.3):
                 o["dim"] = self.d(st.sampled_from([0, -1]))
             self.features.add("cat")
-            return self.done(o, "vec", path, dom=dom, n=n, updatable=False)
+            return self.done(o, "vec", path, dom=dom, n=n, updatable=False, mag=self.mag_of(parts))
         # transformed
         tr = "torch.distributions.ExpTransform" if k == "exp" else "torch.distributions.SigmoidTransform"
         o = {"id": id_, "type": self.typename("TransformedParameter"), "transform": tr}
         if n >= 2 and self.chance(0.3):
-            o["x"], _ = self.parts(n, path + ["x"], lambda m, p: self.vec(REAL, m, p, depth + 1))
+            o["x"], _ = self.parts(n, path + ["x"], lambda m, p: self.vec(REAL, m, p, depth + 1, small=k == "exp"))
         else:
-            o["x"] = self.vec(REAL, n, path + ["x"], depth + 1)
+            o["x"] = self.vec(REAL, n, path + ["x"], depth + 1, small=k == "exp")
         self.features.add("transformed")
-        return self.done(o, "vec", path, dom=POS if k == "exp" else UNIT, n=n, updatable=False, jac=True)
+        mag = math.exp(min(self.mag_of(o["x"]), self.EXP_MAX)) if k == "exp" else 1.0
+        return self.done(o, "vec", path, dom=POS if k == "exp" else UNIT, n=n, updatable=False, jac=True, mag=mag)
 
     def pick_dom(self, doms, m):
         doms = [x for x in doms if x != SIMPLEX or m >= 2]
@@ -250,7 +273,7 @@ class Gen:
         obj = {"id": tid, "type": self.typename("Parameter"), "tensor": self.values(dom, n)}
         for j, i in enumerate(ids):
             self.used.add(i)
-            self.nodes.append(N(i, "vec", list(path) + ["#%d" % j], cls="Parameter", dom=dom, n=n, updatable=True))
+            self.nodes.append(N(i, "vec", list(path) + ["#%d" % j], cls="Parameter", dom=dom, n=n, updatable=True, mag=self.MAG[dom]))
         return self.plate_wrap(obj, rng, var)
 
     def plate_dists(self, path, k):
@@ -271,7 +294,7 @@ class Gen:
         }
         for j in range(len(ids)):
             self.used.update([ids[j], xids[j]])
-            self.nodes.append(N(xids[j], "vec", list(path) + ["#%d" % j, "x"], cls="Parameter", dom=REAL, n=n, updatable=True))
+            self.nodes.append(N(xids[j], "vec", list(path) + ["#%d" % j, "x"], cls="Parameter", dom=REAL, n=n, updatable=True, mag=3.0))
             self.nodes.append(N(ids[j], "dist", list(path) + ["#%d" % j], cls="Distribution"))
         return self.plate_wrap(obj, rng, var)
 
@@ -355,8 +378,10 @@ class Gen:
     def new_jac(self, path):
         n = self.d(st.integers(1, 3))
         tr = self.d(st.sampled_from(["torch.distributions.ExpTransform", "torch.distributions.SigmoidTransform"]))
-        o = {"id": self.fresh(), "type": "TransformedParameter", "transform": tr, "x": self.vec(REAL, n, path + ["x"], 1)}
-        return self.done(o, "vec", path, dom=POS if tr.endswith("ExpTransform") else UNIT, n=n, updatable=False, jac=True)
+        ex = tr.endswith("ExpTransform")
+        o = {"id": self.fresh(), "type": "TransformedParameter", "transform": tr, "x": self.vec(REAL, n, path + ["x"], 1, small=ex)}
+        mag = math.exp(min(self.mag_of(o["x"]), self.EXP_MAX)) if ex else 1.0
+        return self.done(o, "vec", path, dom=POS if ex else UNIT, n=n, updatable=False, jac=True, mag=mag)
 
     # ---- phylogenetic part of the zoo
     def site(self, path):
@@ -507,7 +532,7 @@ class Gen:
 
     def new_leaf(self, path, dom, n):
         o = {"id": self.fresh(), "type": self.typename("Parameter"), "tensor": self.values(dom, n)}
-        return self.done(o, "vec", path, dom=dom, n=n, updatable=True)
+        return self.done(o, "vec", path, dom=dom, n=n, updatable=True, mag=self.MAG[dom])
 
     KINDS = ["leaf"] * 4 + ["vec"] * 2 + ["dist"] * 4 + ["joint"] * 3 + ["site", "subst", "tree", "clock", "ctmc"]
 
